@@ -95,3 +95,40 @@ def afterSets (doc : List Item) (ops : List SetOp) (s k : Bytes) : Option Bytes 
   ops.foldl (fun acc o => if o.sec = s ∧ o.key = k then some o.val else acc) (relGet doc s k)
 
 end C18Spec
+
+/-! ## decimal number texts -/
+namespace C18Spec
+
+def IsDigits (d : Bytes) : Prop := ∀ c ∈ d, 48 ≤ c ∧ c ≤ 57
+
+/-- a number as a CSV cell spells it: sign, integer digits, optional `.` + fraction digits,
+    optional exponent (`e`/`E`, optional sign, digits) -/
+structure Num where
+  neg : Bool
+  ip : Bytes
+  frac : Option Bytes
+  exp : Option (UInt8 × Option Bool × Bytes)
+
+def Num.fracDigits (n : Num) : Bytes := n.frac.getD []
+
+def Num.WF (n : Num) : Prop :=
+  IsDigits n.ip ∧ IsDigits n.fracDigits ∧ n.ip.length + n.fracDigits.length ≥ 1 ∧
+  ∀ e sgn ed, n.exp = some (e, sgn, ed) → (e = 101 ∨ e = 69) ∧ IsDigits ed ∧ ed ≠ []
+
+def Num.expText (n : Num) : Bytes :=
+  match n.exp with
+  | some (e, sgn, ed) => e :: (match sgn with | some true => [45] | some false => [43] | none => []) ++ ed
+  | none => []
+
+def Num.text (n : Num) : Bytes :=
+  (if n.neg then [45] else []) ++ n.ip ++ (match n.frac with | some fp => 46 :: fp | none => []) ++ n.expText
+
+/-- value of a digit string -/
+def natVal (d : Bytes) : Nat := d.foldl (fun y c => 10 * y + (c.toNat - 48)) 0
+
+def Num.expVal (n : Num) : Int :=
+  match n.exp with
+  | some (_, sgn, ed) => if sgn = some true then -(natVal ed : Int) else (natVal ed : Int)
+  | none => 0
+
+end C18Spec
